@@ -136,4 +136,24 @@ theorem gen_env_keys :
     Otel.Gen.C09.tracesSamplerKey = "OTEL_TRACES_SAMPLER" ∧ Otel.Gen.C09.tracesSamplerArgKey = "OTEL_TRACES_SAMPLER_ARG" := by
   decide
 
+/-! ### which sampler a TracerProvider ends up with -/
+
+/-- `NewTracerProvider` resolves its configuration in this order: built-in span limits, environment
+(OTEL_TRACES_SAMPLER…), the caller's options, and only then the defaults for what is still unset — so an option
+overrides the environment and the environment overrides the default sampler -/
+theorem gen_new_tracer_provider_order :
+    Otel.Gen.C09.newTracerProviderOrder = ("<cut>", ["o={spanLimits:NewSpanLimits()}", "env", "options", "defaults"]) := by
+  decide
+
+/-- `WithSampler(nil)` leaves the configured sampler alone; a non-nil sampler replaces it -/
+theorem gen_with_sampler_nil_guard (given : Bool) :
+    Otel.Gen.C09.withSampler given = ("cfg", if given then ["sampler=s"] else []) := by
+  cases given <;> rfl
+
+/-- the default sampler is `ParentBased(AlwaysSample())` (the model's `parentBasedDefault .always`) and is installed
+exactly when no sampler is configured after environment and options -/
+theorem gen_default_sampler_iff (noSampler noIDGen noResource : Bool) :
+    "sampler=ParentBased(AlwaysSample)" ∈ (Otel.Gen.C09.ensureValidConfig noSampler noIDGen noResource).2 ↔ noSampler = true := by
+  cases noSampler <;> cases noIDGen <;> cases noResource <;> decide
+
 end Otel.C09.GenTie
